@@ -43,13 +43,18 @@ def generate(run_seed, prop, tier="quick"):
     rng = rng_for("sampler-scenario", run_seed)
     all_atom = True if prop == "C09" else None
     n_cfg = rng.choice([1, 1, 2])
-    configs = [gen_sampler.gen_config(rng, all_atom=all_atom, tier=tier) for _ in range(n_cfg)]
+    configs = [gen_sampler.gen_config(rng, all_atom=all_atom, tier=tier)]
+    if n_cfg == 2:
+        # a second configuration: unrelated, or the same fragments with other tables (second user of one chemistry)
+        configs.append(gen_sampler.vary_tables(rng, configs[0]) if rng.random() < 0.5
+                       else gen_sampler.gen_config(rng, all_atom=all_atom, tier=tier))
     mode = "owned" if rng.random() < 0.6 else "seed"
     entropy = {"key": rng.randrange(2 ** 40), "steer": rng.choice([0.0, 0.15, 0.4, 0.8]) if mode == "owned" else 0.0,
                "edge": rng.choice([0.0, 0.0, 0.05, 0.2]) if mode == "owned" else 0.0}
     faults = {f: rng.random() < 0.55 for f in ("abort", "foreign", "clock", "cotenant", "again", "noseed", "ownparse", "scribble")}
     ops = []
-    seeds = [rng.randrange(10 ** 9) for _ in range(3)]
+    # seeds include the values a careless truthiness or width test would mishandle
+    seeds = [rng.choice([0, 0, 1, 42, 2 ** 31 - 1, 2 ** 32, 2 ** 64 + 5, rng.randrange(10 ** 9)]) for _ in range(3)]
     n_ops = rng.randint(2, 6)
     for _ in range(n_ops):
         cfg = rng.randrange(n_cfg)
@@ -435,7 +440,9 @@ def run_history(scenario, only=None):
     # forgets to seed must still replay exactly, so their start state derives from the run
     stdlib_random.seed(H("global-random", sc["run_seed"], "history" if only is None else ("reference", only)))
     np.random.seed(H("global-numpy", sc["run_seed"], "history" if only is None else ("reference", only)) % 2 ** 32)
-    clock = SimClock(1_700_000_000 * 10 ** 9, [1, 1000, 37, 10 ** 6])
+    # history and pristine reference live at different simulated times: a seeded result must not care
+    clock = SimClock(1_700_000_000 * 10 ** 9 + H("clock-start", sc["run_seed"], "history" if only is None else ("reference", only)) % 10 ** 15,
+                     [1, 1000, 37, 10 ** 6])
     sample_mod.time = clock
     simrandom = None
     if sc["mode"] == "owned":
